@@ -109,10 +109,12 @@ def run_history(h, ctx, farmer=None):
                         o = {'bad': sorted(int(x) for x in crop.check_bad())}
                     elif k in ('query', 'stalequery'):
                         import copy
-                        cq = crop if k == 'query' else copy.copy(stale0)
-                        o = {'sown': cq.num_sown_batches, 'results': cq.num_results,
-                             'ready': bool(cq.is_ready_to_reap())}
-                        try: o['missing'] = list(cq.missing_results())
+                        # through the pre-sow handle every query is the FIRST thing asked of a fresh copy of it
+                        def h(): return crop if k == 'query' else copy.copy(stale0)
+                        cq = h()
+                        o = {'sown': h().num_sown_batches, 'results': h().num_results,
+                             'ready': bool(h().is_ready_to_reap())}
+                        try: o['missing'] = list(h().missing_results())
                         except Exception as e: o['missing'] = {'err': 'fail', 'exc': type(e).__name__}
                         m = re.search(r'(-?\d+) / (\S+) batches of size', str(cq))
                         ent_str = [m.group(1), m.group(2)] if m else None
